@@ -150,7 +150,7 @@ func (c *CrashKV) apply(ops []kvop, batch bool) error {
 			if c.tr != nil && !c.Quiet {
 				// which write was refused (same classification as for the writes that land)
 				what := summarize(c.node, 0, ops, batch)
-				c.tr.Emit("KVFail", F{"node": c.node, "kind": what["kind"], "h": what["h"], "key": what["key"]})
+				c.tr.Emit("KVFail", F{"node": c.node, "kind": what["kind"], "h": what["h"], "key": what["key"], "op": what["op"]})
 			}
 			return ErrInjectedWrite
 		}
